@@ -355,6 +355,48 @@ def tableOf (n : Nat) (m : List (Nat × Spec.T2.PProgram)) : List Spec.T2.PProgr
     else "nowf"
   | none => "nowf"
 
+/-! #### C05: whole CFF files — every glyph with the subroutines and widths of ITS Font DICT -/
+
+/-- "n~defaultBodyHex~idx:hex,idx:hex" -/
+def parseCffTable (n dflt ents : String) : Option (List (List Nat)) := do
+  let n ← n.toNat?
+  let d ← hexToNats dflt
+  let e ← parseEntries (ents.replace "," ";")
+  pure (mkSubrs n d e)
+
+@[noinline] def cffFileSpec (gs : List (List Nat)) (fds : Array (Int × Int × List (List Nat)))
+    (glyphs : List (Nat × List Nat)) : String :=
+  " | ".intercalate (glyphs.map fun g =>
+    match fds[g.1]? with
+    | some (dw, nw, subrs) => showOut (interp strict ⟨subrs, gs, dw, nw⟩ g.2)
+    | none => "bad-fd")
+
+def handleCffFile (fs : List (String × String)) : String :=
+  let gs := (getField fs "gs").bind fun s =>
+    match s.splitOn "~" with
+    | [n, d, e] => parseCffTable n d e
+    | _ => none
+  let fds := (getField fs "fds").bind fun s =>
+    (s.splitOn "|").mapM fun f =>
+      match f.splitOn "~" with
+      | [dw, nw, _, n, d, e] => do
+        let dw ← parseInt? dw
+        let nw ← parseInt? nw
+        let t ← parseCffTable n d e
+        pure (dw, nw, t)
+      | _ => none
+  let glyphs := (getField fs "glyphs").bind fun s =>
+    (s.splitOn ";").mapM fun g =>
+      match g.splitOn ":" with
+      | [i, h] => do
+        let i ← i.toNat?
+        let c ← hexToNats h
+        pure (i, c)
+      | _ => none
+  match gs, fds, glyphs with
+  | some gs, some fds, some glyphs => cffFileSpec gs fds.toArray glyphs
+  | _, _, _ => "bad-case"
+
 def handleC04 (op : String) (fs : List (String × String)) : String :=
   if op == "t2.encnum" then
     match getField fs "n" >>= parseInt?, getField fs "k" >>= String.toNat? with
@@ -390,6 +432,7 @@ def handle (op : String) (fs : List (String × String)) : String :=
         | .ok s => if s.inexact then "inexact" else "exact"
         | _ => "err"
     | _, _ => "bad-case"
+  else if op == "t2.cfffile" then handleCffFile fs
   else if op == "t2.wf" then
     match getField fs "code" >>= hexToNats with
     | some code =>
